@@ -13,7 +13,7 @@
 #include "common/explore.hpp"
 #include "common/variants.hpp"
 
-enum Ctr { C_EXEC = 0, C_INPUTS, C_NONTRIV, C_POINTS, C_STATES, C_MAXOUT, C_MULTI, C_REDUCE_CALLS, C_FOR_CALLS, C_BLOCK, C_IMPURE, C_MAXTRACE, C_CAPPED_INPUTS, C_PRUNED, C_BODY_RUNS, C_MERGES, C_MULTILEAF, C_DIRECT_EXEC };
+enum Ctr { C_EXEC = 0, C_INPUTS, C_NONTRIV, C_POINTS, C_STATES, C_MAXOUT, C_MULTI, C_REDUCE_CALLS, C_FOR_CALLS, C_BLOCK, C_IMPURE, C_MAXTRACE, C_CAPPED_INPUTS, C_PRUNED, C_BODY_RUNS, C_MERGES, C_MULTILEAF, C_DIRECT_EXEC, C_IMPURE_INPUTS };
 
 typedef double W;
 typedef vb::Built<W> B;
@@ -82,14 +82,22 @@ static void explore_input(vr::Runner &R, const Cfg &cfg, const vg::EdgeList &el,
 #else
         int bound = dim <= cfg.unbounded_dim ? 1000000 : cfg.bound;
         int reported = 0;
+        bool impure_input = false;
         std::string mode_tag = "dp";
         tbb::vtbb_stats() = tbb::VtbbStats();
         auto one = [&]() {
             vx::Explorer &E = vx::explorer();
             std::string pfx; for (size_t i = 0; i < E.prefix.size(); ++i) pfx += (i ? "." : "") + std::to_string(E.prefix[i]);
             R.crumb_text(cs_of(el, w, var, k, pfx + "+"));
+            uint64_t impure_before = tbb::vtbb_stats().impure_bodies;
             Verdict v = run_and_check(var, k, b, el, w, dim, ref);
             R.crumb_done();
+            if (tbb::vtbb_reduce_mode() == 0 && tbb::vtbb_stats().impure_bodies != impure_before) {
+                // a reduce body returned different values for identical arguments: the per-call enumeration is not a set of
+                // real executions for this input, so its verdict is discarded; the direct-execution pass decides instead
+                impure_input = true;
+                return false;      // stop the DP pass for this input
+            }
             if (!v.ok && reported++ < 3) {
                 // replay once more before reporting: the same choice sequence must reproduce the same verdict
                 std::vector<vx::Point> tr = E.trace; std::vector<int> seq; for (auto &p : tr) seq.push_back(p.chosen);
@@ -108,9 +116,10 @@ static void explore_input(vr::Runner &R, const Cfg &cfg, const vg::EdgeList &el,
         vx::DfsStats st = vx::dfs(one, 0, cfg.max_exec);
         if (bound > 0 && reported == 0) { st = vx::dfs(one, bound, cfg.max_exec); }
         // pass B: parallel_reduce executed directly under explorer-chosen schedules (sound for bodies with side effects)
-        if (cfg.direct_bound >= 0 && reported == 0) {
+        if ((cfg.direct_bound >= 0 || impure_input) && reported == 0) {
             tbb::vtbb_reduce_mode() = 1; mode_tag = "direct";
             int db = dim <= cfg.unbounded_dim ? std::max(cfg.direct_bound, 3) : cfg.direct_bound;
+            if (impure_input) { db = std::max(db, 2); R.count(C_IMPURE_INPUTS); }
             vx::DfsStats st2 = vx::dfs(one, db, cfg.max_exec);
             st.executions += st2.executions; st.choice_points += st2.choice_points; st.max_trace = std::max(st.max_trace, st2.max_trace);
             st.pruned_by_bound += st2.pruned_by_bound; st.capped |= st2.capped;
@@ -203,10 +212,10 @@ int main(int argc, char **argv) {
     fprintf(o, "{\"harness\":\"sched_tbb\",\"evaluations\":%" PRIu64 ",\"inputs\":%" PRIu64 ",\"distinct_nontrivial\":%" PRIu64 ",\"schedules\":%" PRIu64
             ",\"states\":%" PRIu64 ",\"transitions\":%" PRIu64 ",\"reduce_calls\":%" PRIu64 ",\"reduce_body_runs\":%" PRIu64 ",\"reduce_max_outcomes\":%" PRIu64 ",\"reduce_multi_outcome_calls\":%" PRIu64
             ",\"reduce_block_mode_calls\":%" PRIu64 ",\"for_calls\":%" PRIu64 ",\"push_merges\":%" PRIu64 ",\"max_choice_points_in_one_execution\":%" PRIu64 ",\"inputs_hitting_execution_cap\":%" PRIu64
-            ",\"alternatives_pruned_by_deviation_bound\":%" PRIu64 ",\"direct_mode_schedules\":%" PRIu64 ",\"reduce_bodies_found_impure\":%" PRIu64 ",\"deviation_bound\":%d,\"direct_deviation_bound\":%d,\"unbounded_for_dim_le\":%d"
+            ",\"alternatives_pruned_by_deviation_bound\":%" PRIu64 ",\"direct_mode_schedules\":%" PRIu64 ",\"reduce_bodies_found_impure\":%" PRIu64 ",\"inputs_decided_by_direct_mode_only\":%" PRIu64 ",\"deviation_bound\":%d,\"direct_deviation_bound\":%d,\"unbounded_for_dim_le\":%d"
             ",\"units_total\":%" PRIu64 ",\"units_done\":%" PRIu64 ",\"capped\":%s,\"crashes\":%" PRIu64 ",\"hangs\":%" PRIu64 ",\"nviol\":%" PRIu64 ",\"wall_s\":%.3f,\n\"samples\":[",
             R.counter(C_EXEC), R.counter(C_INPUTS), R.counter(C_MULTILEAF), R.counter(C_EXEC), R.counter(C_STATES), R.counter(C_POINTS), R.counter(C_REDUCE_CALLS), R.counter(C_BODY_RUNS),
-            R.counter(C_MAXOUT), R.counter(C_MULTI), R.counter(C_BLOCK), R.counter(C_FOR_CALLS), R.counter(C_MERGES), R.counter(C_MAXTRACE), R.counter(C_CAPPED_INPUTS), R.counter(C_PRUNED), R.counter(C_DIRECT_EXEC), R.counter(C_IMPURE),
+            R.counter(C_MAXOUT), R.counter(C_MULTI), R.counter(C_BLOCK), R.counter(C_FOR_CALLS), R.counter(C_MERGES), R.counter(C_MAXTRACE), R.counter(C_CAPPED_INPUTS), R.counter(C_PRUNED), R.counter(C_DIRECT_EXEC), R.counter(C_IMPURE), R.counter(C_IMPURE_INPUTS),
             cfg.bound, cfg.direct_bound, cfg.unbounded_dim, res.units_total, res.units_done, (res.capped || R.counter(C_CAPPED_INPUTS)) ? "true" : "false", res.crashes, res.hangs, res.nviol, wall);
     for (size_t i = 0; i < samples.size(); ++i) fprintf(o, "%s\"%s\"", i ? "," : "", vr::json_escape(samples[i]).c_str());
     fprintf(o, "],\n\"violations\":[");
